@@ -1,6 +1,6 @@
 (* C01 - the property theorems, nothing else.  Each is closed by [exact] of a lemma proved in
    Ck/CkStateProofs.v and followed by Print Assumptions. *)
-From Icv Require Import Base.Tac Ck.CkState Ck.CkStateProofs Ck.CkObs Ck.CkFacts Ck.CkOracleProofs.
+From Icv Require Import Base.Tac Ck.CkState Ck.CkStateProofs Ck.CkObs Ck.CkFacts Ck.CkOracleProofs Ck.CkFull Ck.CkAck Ck.CkLayer.
 Local Open Scope Z_scope.
 
 (* (state type, attempt) is the stated function of the streak of non-OK results since the last OK/Up *)
@@ -61,6 +61,66 @@ Theorem C01_source_facts :
    api_state KHost SOK = Facts_enums.f_HostUp /\ api_state KHost SCritical = Facts_enums.f_HostDown).
 Proof. exact facts_enum_values. Qed.
 Print Assumptions C01_source_facts.
+
+(* ---- layering (DESIGN 1.6): the C01 layer of the combined checkable model CkFull IS CkState ----
+   proved in Ck/CkLayer.v for ALL configurations (flapping on/off and any thresholds), clock values and
+   full states (any acknowledgement, downtimes, suppression bits, parent state, pause flag) *)
+
+(* the check result of the combined model computes its state layer by CkState.step - including WHEN a result
+   is rejected as stale - and emits exactly the new-result / state-change events of that step *)
+Theorem C01_full_projection : forall c now r f,
+  f_st (fst (do_result c now r f)) = fst (step (fc_base c) now (f_st f) r) /\
+  filter ckl_is_st (snd (do_result c now r f)) = ckl_step_events (snd (step (fc_base c) now (f_st f) r)).
+Proof. exact ckl_do_result. Qed.
+Print Assumptions C01_full_projection.
+
+(* every other operation (acknowledge, remove acknowledgement, read, comment timer, downtime add / remove /
+   start timer / clean-up, suppressed-notification timer, parent result, pause, next-check) leaves the state
+   layer unchanged and emits none of its events *)
+Theorem C01_full_other_ops : forall c now f o,
+  (forall r, o <> OpResult r) ->
+  f_st (fst (full_step c now f o)) = f_st f /\ filter ckl_is_st (snd (full_step c now f o)) = [].
+Proof. exact ckl_other_ops_both. Qed.
+Print Assumptions C01_full_other_ops.
+
+(* along EVERY operation sequence the state layer of the combined model is the CkState run over the results
+   fed (CkState.step itself skips the stale ones), and its events are the CkState events *)
+Theorem C01_full_projection_run : forall c h f,
+  f_st (ckl_run c f h) = run (fc_base c) (f_st f) (ckl_results h) /\
+  filter ckl_is_st (ckl_outs c f h) = ckl_events (fc_base c) (f_st f) (ckl_results h).
+Proof. exact ckl_projection. Qed.
+Print Assumptions C01_full_projection_run.
+
+(* ... also with the cluster acknowledgement events of CkAck interleaved *)
+Theorem C01_full_projection_run_cluster : forall c h f,
+  f_st (cka_run c f h) = run (fc_base c) (f_st f) (ckl_results_cka h).
+Proof. exact ckl_projection_cka. Qed.
+Print Assumptions C01_full_projection_run_cluster.
+
+(* transfer: C01_characterisation holds of the combined model after ANY operation sequence *)
+Theorem C01_full_characterisation : forall c f h n,
+  1 <= c_max (fc_base c) -> nondecreasing (s_cr_start (f_st f)) (ckl_results h) ->
+  streak (c_kind (fc_base c)) (map (fun nr => r_state (snd nr)) (ckl_results h)) = Some n ->
+  Char (fc_base c) (f_st (ckl_run c f h)) n.
+Proof. exact ckl_characterisation. Qed.
+Print Assumptions C01_full_characterisation.
+
+(* transfer: C01_events and C01_stale_rejected for a result processed by the combined model *)
+Theorem C01_full_event : forall c now f r,
+  rejected now (f_st f) r = false ->
+  post_ok_shape (fc_base c) (f_st f) -> (c_volatile (fc_base c) = true -> s_type (f_st f) = Hard) ->
+  filter ckl_is_st (snd (full_step c now f (OpResult r))) =
+  [ONewResult; OStateChange (spec_event (fc_base c) (f_st f) (r_state r)
+                                        (s_type (f_st (fst (full_step c now f (OpResult r))))))].
+Proof. exact ckl_event. Qed.
+Print Assumptions C01_full_event.
+
+Theorem C01_full_stale_rejected : forall c now f r,
+  s_has_cr (f_st f) = true -> s_cr_start (f_st f) <= now -> r_start r < s_cr_start (f_st f) ->
+  f_st (fst (full_step c now f (OpResult r))) = f_st f /\
+  filter ckl_is_st (snd (full_step c now f (OpResult r))) = [].
+Proof. exact ckl_stale_rejected. Qed.
+Print Assumptions C01_full_stale_rejected.
 
 (* non-vacuity: a concrete reachable state meets the premises *)
 Example C01_nonvacuous :
